@@ -28,7 +28,7 @@ RULE = ("plans = block (tx count over powers of two / odd sizes) x match subset 
         "a header was mutated and re-identified, or a filter with >= 2 elements was matched by the peer")
 FAULT_KINDS = ["proof_hash_altered", "proof_hash_added", "proof_hash_removed", "proof_padding_bit_set", "proof_root_differs",
                "proof_flag_bit_flipped", "proof_extra_flag_byte", "block_tx_byte_flipped", "block_truncated",
-               "block_header_root_altered", "header_field_mutated"]
+               "block_header_root_altered", "header_field_mutated", "block_txs_edited_in_place"]
 PROBES = ["block_roundtrip", "block_odd_tx_count", "block_pow2_tx_count", "block_1_tx", "block>=64_tx", "proof_honest_accepted",
           "proof_none_matched", "proof_all_matched", "corrupt_block_rejected_merkle", "corrupt_block_rejected_parse",
           "corrupt_block_accepted_root_consistent", "corrupt_proof_rejected", "flagflip_proof_accepted_sound",
@@ -97,7 +97,8 @@ def gen_plan(rng, tier, index, config=None):
         elif op == "mutate":
             steps.append({"op": "mutate", "block": "b%d" % r.below(nblocks),
                           "field": r.pick(["nonce", "set_nonce", "timestamp", "difficulty", "version", "merkle_root",
-                                           "previous_block_hash"]), "value": r.bits(32), "bytes": r.bytes(32).hex()})
+                                           "previous_block_hash", "txs_inplace", "txs_inplace"]), "value": r.bits(32), "bytes": r.bytes(32).hex(),
+                          "edit": r.pick(["append_dup", "pop", "swap", "tx_version", "tx_locktime", "none", "restore_root"])})
         elif op == "merkle":
             n = _ntx(r, tier)
             steps.append({"op": "merkle", "n": n, "seed": r.bits(64)})
@@ -490,6 +491,8 @@ def _op_mutate(ctx, W, st):
     if blk is None or blk.get("obj") is None:
         return
     b = blk["obj"]
+    if st["field"] == "txs_inplace":
+        return _mutate_txs(ctx, W, st, blk, b)
     # ids are read before and after: a cached id must not survive the mutation
     try:
         before = b.id()
@@ -519,6 +522,53 @@ def _op_mutate(ctx, W, st):
     if after != exp[::-1].hex() or h2 != exp:
         ctx.violate("C14", "block-id-stale-after-mutation", {"field": st["field"], "got": after, "expected": exp[::-1].hex(),
                                                              "before": before})
+
+
+def _mutate_txs(ctx, W, st, blk, b):
+    """the holder of a parsed block edits its transaction list in place (the same list object the block keeps) and asks the
+    block again whether its transactions hash to the header's root: the answer must follow the current contents"""
+    from pycoin.block import BadMerkleRootError
+
+    def verdict():
+        try:
+            b.check_merkle_hash()
+            return True
+        except BadMerkleRootError:
+            return False
+
+    def expected():
+        ids = [mw.txid(mw.tx_from_pycoin(t)) for t in b.txs]
+        return bool(ids) and mm.merkle_root(ids) == bytes(b.merkle_root)
+
+    try:
+        if not b.txs:
+            return
+        v0, e0 = verdict(), expected()
+        edit = st.get("edit", "none")
+        txs = b.txs
+        if edit == "append_dup":
+            txs.append(txs[-1])
+        elif edit == "pop" and len(txs) > 1:
+            txs.pop()
+        elif edit == "swap" and len(txs) > 1:
+            txs[0], txs[-1] = txs[-1], txs[0]
+        elif edit == "tx_version":
+            txs[st["value"] % len(txs)].version ^= 1
+        elif edit == "tx_locktime":
+            txs[st["value"] % len(txs)].lock_time ^= 1
+        elif edit == "restore_root":
+            b.merkle_root = mm.merkle_root([mw.txid(mw.tx_from_pycoin(t)) for t in txs])
+            blk.setdefault("mut_hdr", dict(blk["hdr"]))["merkle"] = bytes(b.merkle_root)
+        v1, e1 = verdict(), expected()
+    except Exception as e:
+        ctx.violate("C14", "header-mutation-raised", {"field": "txs_inplace", "edit": st.get("edit"), "exc": type(e).__name__, "msg": str(e)[:200]})
+        return
+    ctx.fault("block_txs_edited_in_place")
+    ctx.nontrivial = True
+    ctx.obs("mutate-txs", st["block"], st.get("edit"), v0, v1)
+    if (v0, v1) != (e0, e1):
+        ctx.violate("C14", "merkle-check-does-not-follow-transactions", {"edit": st.get("edit"), "before": [v0, e0], "after": [v1, e1],
+                                                                       "n": len(b.txs)})
 
 
 def _op_merkle(ctx, W, st):
